@@ -291,8 +291,21 @@ func genConstOpt(b *builder, c *corpus, nSites int) {
 	p := pick(b.r, c.withOv)
 	m, lref := b.lower(t, p)
 	n := 1 + b.r.intn(3)
+	var prev []proto.Const
 	for i := 0; i < n; i++ {
 		cs, _ := constsFor(b.r, p)
+		if len(prev) > 1 && b.r.chance(0.4) {
+			// the same keys as the previous call, values rotated: a second
+			// resolution that differs from the first only in which key gets
+			// which value
+			cs = append([]proto.Const(nil), prev...)
+			first := cs[0].Value
+			for j := 0; j+1 < len(cs); j++ {
+				cs[j].Value = cs[j+1].Value
+			}
+			cs[len(cs)-1].Value = first
+		}
+		prev = cs
 		var ref proto.Ref
 		if b.r.chance(0.5) {
 			op := b.backendOp(proto.OpGLSL, m)
